@@ -153,6 +153,8 @@ func classify(ref *funcRef) string {
 		return "fedrepgroups"
 	case strings.HasPrefix(name, "entityResolverNameFor"):
 		return "fedresolvername"
+	case name == "isMulti":
+		return "fedismulti"
 	}
 	if sig.Recv() != nil && strings.HasSuffix(typeStr(sig.Recv().Type()), "executableSchema") && name == "Schema" {
 		return "schemagetter"
@@ -236,6 +238,16 @@ func mergeContracts(base *Contract, extra []*Contract) *Contract {
 		}
 		for k, v := range src.At {
 			c.At[k] = append(c.At[k], v...)
+		}
+		for k := range src.MustAt {
+			if c.MustAt == nil || src != base {
+				nm := map[string]bool{}
+				for kk := range c.MustAt {
+					nm[kk] = true
+				}
+				c.MustAt = nm
+			}
+			c.MustAt[k] = true
 		}
 	}
 	return &c
@@ -324,7 +336,7 @@ func (s *Session) familyUnitsImpl(id string, probes []ProbeResult, re *regexp.Re
 		// anchors of a family contract need not occur in every member
 		var keep []*Obligation
 		for _, o := range u.Obls {
-			if strings.Contains(o.Name, ":anchor:") {
+			if i := strings.Index(o.Name, ":anchor:"); i >= 0 && !con.MustAt[o.Name[i+len(":anchor:"):]] {
 				continue
 			}
 			keep = append(keep, o)
@@ -355,7 +367,7 @@ func (s *Session) familyUnitsImpl(id string, probes []ProbeResult, re *regexp.Re
 				cu := s.verifyKey(ck, &inst)
 				var keep2 []*Obligation
 				for _, o := range cu.Obls {
-					if !strings.Contains(o.Name, ":anchor:") {
+					if i := strings.Index(o.Name, ":anchor:"); i < 0 || inst.MustAt[o.Name[i+len(":anchor:"):]] {
 						keep2 = append(keep2, o)
 					}
 				}
